@@ -40,7 +40,7 @@ func (check) StallSeconds() int { return 20 }
 func (check) Exhaustive(string) bool { return false }
 
 func (check) Rule() string {
-	return "four workloads split over the case index. (a) strings: all strings of length <=5 over `[]{}\"',:\\a1 ` (quick: all <=3 plus a seed-chosen sample of lengths 4-5) through parse.Value, parse.ValueWithConfig under all 32 parse.Config flag combinations (24 legal, 8 illegal), flag.NewFlagKeyValue.Set/String and a ${ENV} reference read with ResolveEnv; all strings of length <=6 over `${}:+?a.0-` (quick: all <=3 plus a sample of 4-6) stored as a setting under VarExp and read with String/Unpack/Has/CountField/FlattenedKeys/Child without resolver and with resolvers echoing bracket-ish text ({ [1, ${a} ...) under the three predefined parse configs. (b) bytes: documents rendered from small trees as JSON, flow/block YAML and HJSON, then bit flips, token deletion/duplication/swap/replacement, garbage insertion, truncation at every offset, pure garbage, nesting up to depth 10000, anchors/aliases/merge keys/tags, through the yaml/json/hjson loaders with {none, PathSep, PathSep+VarExp}; whatever loads is unpacked into map and slice, flattened and probed with Has/String. (c) names x indices: every getter/setter/Has/Remove/Child/CountField/SetChild/NewFrom/Merge with names from a key-spelling table (plus numeric literals just above every index limit) x idx from MinInt..MaxInt on 10 config shapes (incl. nil values, unresolvable and cyclic references) x 10 option sets (quick: a seed-chosen sample of the units, thorough: all). (d) Unpack targets: a table of ~150 target kinds (nil, non-pointers, nil/typed interfaces, chan/func/unsafe.Pointer/complex, non-string map keys, pre-filled maps/slices/arrays, arrays as map values, recursive pointer types with depth 1..50, unexported/embedded fields, callbacks returning errors, pointer-to-map elements, named primitives, Config targets, bad validator tags) x 20 config fixtures x 4 option sets, plus random reflect-built target types with random pre-fill. Non-trivial = non-empty input that reached the library; distinct = distinct (workload, input) pair."
+	return "four workloads split over the case index. (a) strings: all strings of length <=5 over `[]{}\"',:\\a1 ` (quick: all <=3 plus a seed-chosen sample of lengths 4-5) through parse.Value, parse.ValueWithConfig under all 32 parse.Config flag combinations (24 legal, 8 illegal), flag.NewFlagKeyValue.Set/String and a ${ENV} reference read with ResolveEnv; all strings of length <=6 over `${}:+?a.0-` (quick: all <=3 plus a sample of 4-6) stored as a setting under VarExp and read with String/Unpack/Has/CountField/FlattenedKeys/Child without resolver and with resolvers echoing bracket-ish text ({ [1, ${a} ...) under the three predefined parse configs. (b) bytes: documents rendered from small trees as JSON, flow/block YAML and HJSON, then bit flips, token deletion/duplication/swap/replacement, garbage insertion, truncation at every offset, pure garbage, nesting up to depth 10000, anchors/aliases/merge keys/tags, through the yaml/json/hjson loaders with {none, PathSep, PathSep+VarExp}; whatever loads is unpacked into map and slice, flattened and probed with Has/String. (c) names x indices: every getter/setter/Has/Remove/Child/CountField/SetChild/NewFrom/Merge with names from a key-spelling table (plus numeric literals just above every index limit) x idx from MinInt..MaxInt on 10 config shapes (incl. nil values, unresolvable and cyclic references) x 10 option sets (quick: a seed-chosen sample of the units, thorough: all). (d) Unpack targets: a table of ~340 target rows (nil, non-pointers, typed nil pointers, nil/typed interfaces, chan/func/unsafe.Pointer/complex, non-string map keys, pre-filled maps/slices/arrays of structs, pointers, interfaces, arrays as map values, recursive types, unexported/embedded fields, inline tags on every kind, callbacks returning errors, pointer-to-map/slice elements, named primitives, Config and rebranded Config targets, every built-in validator on a field of every kind, malformed validator tags) x 21 config fixtures (matching, primitive/object/list mismatches, nil, references incl. cyclic, unresolvable and to ancestors) x 4 option sets, exhaustively in both tiers; recursive pointer types against next-chains of depth 1..50; plus random reflect-built target types with random pre-fill and random configs. Non-trivial = non-empty input that reached the library; distinct = distinct (workload, input) pair."
 }
 
 func (check) Assumptions() []string {
